@@ -28,6 +28,10 @@ def build_module(src, tag):
     with open(path, "w") as f: f.write(text)
     try:
         sys.modules.pop(name, None); importlib.invalidate_caches()
+        # typing caches subscriptions on equality (Union[A, B] == Union[B, A], Literal[1, True] == Literal[True, 1]): a spelling
+        # used by an earlier generated module must not be handed to this one
+        import typing
+        for clear in getattr(typing, "_cleanups", []): clear()
         return importlib.import_module(name)
     finally:
         try: os.remove(path)
